@@ -688,6 +688,21 @@ def pickLen (fns : Nat → Option Wrap) : Nat → Option (Nat × Wrap)
     | some w => some (n + 1, w)
     | none => pickLen fns n
 
+mutual
+/-- `node.env.get::<EmphDepth>()` (0 when absent): nodes made by `scan_and_match_delimiters` store
+    1 + the deepest value among the children they received, nothing else stores one, and the children
+    of such a node never change afterwards — so the stored value is this function of the node -/
+def wrapDepth : Node → Nat
+  | ⟨v, _, cs⟩ =>
+    match v with
+    | .wrap _ _ => wrapDepthList cs + 1
+    | _ => 0
+/-- deepest `EmphDepth` among a list of siblings -/
+def wrapDepthList : List Node → Nat
+  | [] => 0
+  | c :: cs => max (wrapDepth c) (wrapDepthList cs)
+end
+
 /-- state of the delimiter matching while one closer is processed -/
 structure MatchSt where
   closer : Marker
@@ -695,15 +710,19 @@ structure MatchSt where
   closerRange : Option (Nat × Nat)
   children : List Node
   newMin : Nat
+  /-- `inner_depth`: deepest emphasis nesting among the nodes after `idx` -/
+  innerDepth : Nat := 0
 
 /-- the inner `while closer.remaining > 0 && opener.remaining > 0 { .. }` for the opener at `idx`;
     returns the opener value afterwards and the matching state.  `fuel` is `closer.remaining`
     (each iteration takes at least one marker off it). -/
-def matchInner (fns : Nat → Option Wrap) (mk : Char) (idx : Nat) :
+def matchInner (fns : Nat → Option Wrap) (mk : Char) (room : Nat) (idx : Nat) :
     Nat → Marker → MatchSt → Except RPanic (Marker × MatchSt)
   | 0, opener, ms => .ok (opener, ms)
   | fuel + 1, opener, ms =>
     if ms.closer.remaining > 0 ∧ opener.remaining > 0 then
+      -- `if state.level + inner_depth >= state.md.max_nesting { break; }` (`room` = `max_nesting - level`)
+      if ms.innerDepth ≥ room then .ok (opener, ms) else
       let maxLen := min 3 (min opener.remaining ms.closer.remaining)
       match pickLen fns maxLen with
       | none => .ok (opener, ms)          -- `break`
@@ -740,9 +759,10 @@ def matchInner (fns : Nat → Option Wrap) (mk : Char) (idx : Nat) :
                   { val := .wrap w mk, range := some (startMapPos, endMapPos), children := tail }
                 -- `if opener.remaining == 0 { state.node.children.pop(); }`, then `push(new_token)`
                 let kept := if opener'.remaining = 0 then init else init ++ [otok']
-                matchInner fns mk idx fuel opener'
+                -- `inner_depth += 1; new_token.env.insert(EmphDepth(inner_depth));`
+                matchInner fns mk room idx fuel opener'
                   { closer := closer', closerRange := closerRange', children := kept ++ [newTok],
-                    newMin := 0 }
+                    newMin := 0, innerDepth := ms.innerDepth + 1 }
     else .ok (opener, ms)
 
 /-- `state.node.children[idx].replace(opener)` -/
@@ -752,21 +772,26 @@ def replaceAt (cs : List Node) (idx : Nat) (m : Marker) : Except RPanic (List No
   | some n => .ok (cs.set idx { n with val := m.toVal })
 
 /-- the outer `while idx > min_opener_idx { idx -= 1; .. }`; `k` is `idx - min_opener_idx` -/
-def matchOuter (fns : Nat → Option Wrap) (mk : Char) (minIdx : Nat) :
+def matchOuter (fns : Nat → Option Wrap) (mk : Char) (room : Nat) (minIdx : Nat) :
     Nat → MatchSt → Except RPanic MatchSt
   | 0, ms => .ok ms
-  | k + 1, ms =>
+  | k + 1, ms0 =>
     -- `idx -= 1`
     let idx := minIdx + k
+    -- `state.node.children[idx + 1].env.get::<EmphDepth>()` → `inner_depth = max(inner_depth, ..)`
+    match ms0.children[idx + 1]? with
+    | none => .error .index
+    | some nxt =>
+    let ms := { ms0 with innerDepth := max ms0.innerDepth (wrapDepth nxt) }
     match ms.children[idx]? with
     | none => .error .index
     | some tok =>
       match tok.asMarker with
-      | none => matchOuter fns mk minIdx k ms
+      | none => matchOuter fns mk room minIdx k ms
       | some opener =>
         let go : Except RPanic (Marker × MatchSt) :=
           if opener.open_ && opener.marker == ms.closer.marker && !isOddMatch opener ms.closer then
-            matchInner fns mk idx ms.closer.remaining opener ms
+            matchInner fns mk room idx ms.closer.remaining opener ms
           else .ok (opener, ms)
         match go with
         | .error e => .error e
@@ -774,8 +799,8 @@ def matchOuter (fns : Nat → Option Wrap) (mk : Char) (minIdx : Nat) :
           if opener'.remaining > 0 then
             match replaceAt ms'.children idx opener' with
             | .error e => .error e
-            | .ok cs => matchOuter fns mk minIdx k { ms' with children := cs }
-          else matchOuter fns mk minIdx k ms'
+            | .ok cs => matchOuter fns mk room minIdx k { ms' with children := cs }
+          else matchOuter fns mk room minIdx k ms'
 
 /-- `OpenersBottom::<MARKER>::default()` -/
 def bottomsDefault : List Nat := [0, 0, 0, 0, 0, 0]
@@ -791,7 +816,7 @@ def bottomsSet (b : List (Char × List Nat)) (mk : Char) (i v : Nat) : List (Cha
   (mk, (bottomsGet b mk).set i v) :: b.filter (fun e => e.1 != mk)
 
 /-- `scan_and_match_delimiters::<MARKER>(state)` on `(children, bottoms)` -/
-def scanAndMatch (fns : Nat → Option Wrap) (mk : Char) (children : List Node)
+def scanAndMatch (fns : Nat → Option Wrap) (mk : Char) (room : Nat) (children : List Node)
     (bottoms : List (Char × List Nat)) : Except RPanic (List Node × List (Char × List Nat)) :=
   if children.length = 1 then .ok (children, bottoms)
   else
@@ -809,7 +834,7 @@ def scanAndMatch (fns : Nat → Option Wrap) (mk : Char) (children : List Node)
           if init.length = 0 then .error .underflow
           else
             let idx := init.length - 1
-            match matchOuter fns mk minIdx (idx - minIdx)
+            match matchOuter fns mk room minIdx (idx - minIdx)
                 { closer := closer, closerRange := closerTok.range, children := init, newMin := idx } with
             | .error e => .error e
             | .ok ms =>
@@ -841,7 +866,7 @@ def ruleEmph (cfg : Cfg) (mk : Char) (canSplitWord : Bool) (st : IState) (silent
                 (some r)
             let st1 := st.push node
             if scanned.canClose then
-              match scanAndMatch (cfg.fns mk) mk st1.children st1.bottoms with
+              match scanAndMatch (cfg.fns mk) mk (cfg.maxNesting - st1.level) st1.children st1.bottoms with
               | .error e => .error e
               | .ok (cs, b) => .ok (some scanned.length, { st1 with children := cs, bottoms := b })
             else .ok (some scanned.length, st1)
